@@ -190,7 +190,7 @@ def gen_case(rng, tier):
         grids = [gen_grid(rng, shape, b, coded) for b in range(nb)]
         kind = "bare" if (len(axes) == 1 and rng.random() < 0.35) else "list"
         case.update(kind=kind, axes=axes, grids=grids, names=names)
-        if rng.random() < 0.05:
+        if rng.random() < 0.15:
             # descending axes (implementation-only stream): flip axes and grids consistently
             case["desc"] = True
             case["kind"] = "list"
